@@ -24,6 +24,7 @@ import (
 	"context"
 	"errors"
 	"fmt"
+	"github.com/go-logr/logr"
 	"io"
 	"net/http"
 	"strings"
@@ -66,6 +67,11 @@ type polC struct {
 	Honour   bool          `json:"retry_after_honoured"`
 	Min      time.Duration `json:"min_ns"`
 	Max      time.Duration `json:"max_ns"`
+	// Via: "" = the policy is the client configuration's (NewConfigurableRetryableClientFromClient); "request-configuration" =
+	// the policy is that of the REQUEST configuration handed to NewConfigurableRetryableClientWithLoggerAndCustomClient, the
+	// client configuration holding another policy (other kind, Retry-After switch the other way, other attempts and bounds):
+	// the request's policy governs
+	Via string `json:"client_built_through,omitempty"`
 }
 
 type caseC struct {
@@ -219,6 +225,11 @@ func execC(t *testing.T, p polC, ctx0 string, prefix []csym) (r runC) {
 		}
 		cfg := &httpx.HTTPClientConfiguration{RetryPolicy: rp}
 		client := httpx.NewConfigurableRetryableClientFromClient(cfg, &http.Client{Transport: rt})
+		if p.Via == "request-configuration" {
+			otherKind := map[string]string{kConstant: kExponential, kExponential: kLinear, kLinear: kConstant}[p.Kind]
+			cfg = &httpx.HTTPClientConfiguration{RetryPolicy: httpPolicy(true, p.RetryMax+2, otherKind, !p.Honour, 3*p.Min+7*time.Millisecond, 3*p.Max+11*time.Millisecond)}
+			client = httpx.NewConfigurableRetryableClientWithLoggerAndCustomClient(cfg, &httpx.RequestConfiguration{Retries: rp}, logr.Discard(), &http.Client{Transport: rt})
+		}
 		req, err := http.NewRequestWithContext(ctx, http.MethodGet, "http://c14.invalid/resource", nil)
 		if err != nil {
 			r.Err = err
@@ -239,6 +250,9 @@ func polClassC(p polC) string {
 	k := p.Kind
 	if !p.Enabled {
 		k = "disabled"
+	}
+	if p.Via != "" {
+		k += ":via=" + p.Via
 	}
 	return "policy=" + k
 }
@@ -427,7 +441,10 @@ func jobsC(thorough bool) []jobC {
 						if c0 == "cancelled" && rm > 1 {
 							continue
 						}
-						js = append(js, jobC{polC{true, rm, k, h, m.Min, m.Max}, c0, alpha})
+						js = append(js, jobC{polC{true, rm, k, h, m.Min, m.Max, ""}, c0, alpha})
+						if rm >= 1 && rm <= 2 && c0 == "live" {
+							js = append(js, jobC{polC{true, rm, k, h, m.Min, m.Max, "request-configuration"}, c0, small})
+						}
 					}
 				}
 			}
@@ -436,7 +453,7 @@ func jobsC(thorough bool) []jobC {
 	for _, rm := range []int{0, 2} {
 		for _, h := range []bool{false, true} {
 			for _, m := range mm[:2] {
-				js = append(js, jobC{polC{false, rm, kConstant, h, m.Min, m.Max}, "live", full})
+				js = append(js, jobC{polC{false, rm, kConstant, h, m.Min, m.Max, ""}, "live", full})
 			}
 		}
 	}
